@@ -70,6 +70,8 @@ func errCode(err error) int {
 		return 8
 	case strings.Contains(s, "cannot be encoded as an int32 span offset"):
 		return 9
+	case strings.Contains(s, "created timestamps are only supported for counters"):
+		return 15
 	}
 	return 0
 }
@@ -247,6 +249,11 @@ func genDspec(r *emit.Rng, bad int) *dspec {
 	for i := 0; i < nl; i++ {
 		d.lvs = append(d.lvs, genValue(r, bad/3))
 	}
+	// directed: right arity, exactly one label value that is not valid UTF-8 (every constructor variant must refuse it)
+	if len(d.vars) > 0 && len(d.lvs) == len(d.vars) && r.Chance(1, 10) {
+		d.lvs[r.Intn(len(d.lvs))] = badValues[r.Intn(len(badValues))]
+		d.tags = append(d.tags, "directed:one-non-utf8-label-value")
+	}
 	d.tags = append(d.tags, fmt.Sprintf("consts:%d", len(d.consts)), fmt.Sprintf("vars:%d", len(d.vars)))
 	return d
 }
@@ -271,6 +278,44 @@ func (d *dspec) desc() *prometheus.Desc {
 }
 
 func errTag(code int) string { return fmt.Sprintf("result:err%d", code) }
+
+// one generated case; a generator returns one case per constructor variant, all on the same inputs
+type oneCase struct {
+	term string
+	nt   bool
+	tags []string
+}
+
+func single(t string, nt bool, tags []string) []oneCase { return []oneCase{{t, nt, tags}} }
+
+// must runs a Must* constructor: the documented panic carries the error the plain form returns
+func must(f func() prometheus.Metric) (m prometheus.Metric, err error) {
+	defer func() {
+		if e := recover(); e != nil {
+			if ee, ok := e.(error); ok {
+				err = ee
+			} else {
+				err = fmt.Errorf("panic: %v", e)
+			}
+			m = nil
+		}
+	}()
+	return f(), nil
+}
+
+var createdTS = time.Unix(1700000000, 123)
+
+// ctOK: the created timestamp is present and equal to createdTS exactly for the ...WithCreatedTimestamp variants
+func ctOK(variant int, has bool, at time.Time) bool {
+	if variant >= 2 {
+		return has && at.Equal(createdTS)
+	}
+	return !has
+}
+
+func withTag(tags []string, extra ...string) []string {
+	return append(append([]string{}, tags...), extra...)
+}
 
 // ---------------------------------------------------------------- streams
 func streamFQ(c *cli.Ctx, r *emit.Rng) error {
@@ -301,46 +346,71 @@ func streamFQ(c *cli.Ctx, r *emit.Rng) error {
 	return w.Flush()
 }
 
-func constCase(r *emit.Rng, bad int) (string, bool, []string) {
+var constCaseVariants = []string{"NewConstMetric", "MustNewConstMetric", "NewConstMetricWithCreatedTimestamp", "MustNewConstMetricWithCreatedTimestamp"}
+
+func constCase(r *emit.Rng, bad int) []oneCase {
 	d := genDspec(r, bad)
 	vt := 1 + r.Intn(3)
 	if r.Intn(100) < bad/3 {
 		vt = []int{0, 4, -1, 7}[r.Intn(4)]
 	}
 	v := r.AnyFloat()
-	m, err := prometheus.NewConstMetric(d.desc(), prometheus.ValueType(vt), v, d.lvs...)
-	var impl string
-	tags := d.tags
-	nontriv := false
-	if err != nil {
-		impl = emit.C(0, emit.I(errCode(err)))
-		tags = append(tags, errTag(errCode(err)))
-		nontriv = len(d.consts)+len(d.vars) >= 1
-	} else {
-		var pb dto.Metric
-		if e := m.Write(&pb); e != nil {
-			panic(e)
+	var out []oneCase
+	for variant := 0; variant < 4; variant++ {
+		desc := d.desc()
+		lvs := append([]string{}, d.lvs...)
+		var m prometheus.Metric
+		var err error
+		switch variant {
+		case 0:
+			m, err = prometheus.NewConstMetric(desc, prometheus.ValueType(vt), v, lvs...)
+		case 1:
+			m, err = must(func() prometheus.Metric {
+				return prometheus.MustNewConstMetric(desc, prometheus.ValueType(vt), v, lvs...)
+			})
+		case 2:
+			m, err = prometheus.NewConstMetricWithCreatedTimestamp(desc, prometheus.ValueType(vt), v, createdTS, lvs...)
+		case 3:
+			m, err = must(func() prometheus.Metric {
+				return prometheus.MustNewConstMetricWithCreatedTimestamp(desc, prometheus.ValueType(vt), v, createdTS, lvs...)
+			})
 		}
-		var ivt int
-		var iv float64
-		switch {
-		case pb.Counter != nil:
-			ivt, iv = 1, pb.Counter.GetValue()
-		case pb.Gauge != nil:
-			ivt, iv = 2, pb.Gauge.GetValue()
-		case pb.Untyped != nil:
-			ivt, iv = 3, pb.Untyped.GetValue()
+		var impl string
+		tags := withTag(d.tags, "variant:"+constCaseVariants[variant])
+		nontriv := false
+		if err != nil {
+			impl = emit.C(0, emit.I(errCode(err)))
+			tags = append(tags, errTag(errCode(err)))
+			nontriv = len(d.consts)+len(d.vars) >= 1
+		} else {
+			var pb dto.Metric
+			if e := m.Write(&pb); e != nil {
+				panic(e)
+			}
+			var ivt int
+			var iv float64
+			ct := true
+			switch {
+			case pb.Counter != nil:
+				ivt, iv = 1, pb.Counter.GetValue()
+				ct = ctOK(variant, pb.Counter.CreatedTimestamp != nil, pb.Counter.GetCreatedTimestamp().AsTime())
+			case pb.Gauge != nil:
+				ivt, iv = 2, pb.Gauge.GetValue()
+			case pb.Untyped != nil:
+				ivt, iv = 3, pb.Untyped.GetValue()
+			}
+			impl = emit.C(1, lpS(pb.Label), emit.I(ivt), emit.F(iv), emit.B(ct))
+			tags = append(tags, "result:ok", fmt.Sprintf("labels:%d", len(pb.Label)))
+			nontriv = len(pb.Label) >= 2
 		}
-		impl = emit.C(1, lpS(pb.Label), emit.I(ivt), emit.F(iv))
-		tags = append(tags, "result:ok", fmt.Sprintf("labels:%d", len(pb.Label)))
-		nontriv = len(pb.Label) >= 2
+		out = append(out, oneCase{emit.Tup("1", emit.I(variant), d.term(), emit.I(vt), emit.F(v), impl), nontriv, tags})
 	}
-	return emit.Tup("1", d.term(), emit.I(vt), emit.F(v), impl), nontriv, tags
+	return out
 }
 
 var kindNames = []string{"counter", "gauge", "counterfunc", "gaugefunc", "untypedfunc", "countervec", "gaugevec", "histogram", "histogramvec", "summary", "summaryvec"}
 
-func liveCase(r *emit.Rng, bad int) (string, bool, []string) {
+func liveCase(r *emit.Rng, bad int) []oneCase {
 	kind := r.Intn(11)
 	isVec := kind == 5 || kind == 6 || kind == 8 || kind == 10
 	d := genDspec(r, bad)
@@ -456,7 +526,7 @@ func liveCase(r *emit.Rng, bad int) (string, bool, []string) {
 		}
 		impl = emit.C(2, emit.I(derr), labels)
 	}
-	return emit.Tup("2", emit.I(kind), emit.S(ns), emit.S(sub), emit.S(name), emit.S(d.help), emit.SL(d.vars), kvS(d.cOrder), emit.SL(d.lvs), impl), nontriv, tags
+	return single(emit.Tup("2", emit.I(kind), emit.S(ns), emit.S(sub), emit.S(name), emit.S(d.help), emit.SL(d.vars), kvS(d.cOrder), emit.SL(d.lvs), impl), nontriv, tags)
 }
 
 // distinct non-NaN float keys in generation order
@@ -495,7 +565,7 @@ func anyU64(r *emit.Rng) uint64 {
 	}
 }
 
-func classicCase(r *emit.Rng, bad int) (string, bool, []string) {
+func classicCase(r *emit.Rng, bad int) []oneCase {
 	d := genDspec(r, bad)
 	count, sum := anyU64(r), r.AnyFloat()
 	n := r.Intn(10)
@@ -503,57 +573,97 @@ func classicCase(r *emit.Rng, bad int) (string, bool, []string) {
 		n = 12 + r.Intn(30) // beyond the insertion-sort threshold of sort.Sort
 	}
 	keys := genBounds(r, n)
-	tags := d.tags
-	if r.Bool() { // histogram
-		bm := map[float64]uint64{}
-		it := make([]string, len(keys))
-		for i, k := range keys {
-			bm[k] = anyU64(r)
-			it[i] = emit.Pair(emit.F(k), emit.U(bm[k]))
+	isHist := r.Bool()
+	vals := make([]uint64, len(keys))
+	qvals := make([]float64, len(keys))
+	it := make([]string, len(keys))
+	for i, k := range keys {
+		if isHist {
+			vals[i] = anyU64(r)
+			it[i] = emit.Pair(emit.F(k), emit.U(vals[i]))
+		} else {
+			qvals[i] = r.AnyFloat()
+			it[i] = emit.Pair(emit.F(k), emit.F(qvals[i]))
 		}
-		m, err := prometheus.NewConstHistogram(d.desc(), count, sum, bm, d.lvs...)
+	}
+	var out []oneCase
+	for variant := 0; variant < 4; variant++ {
+		desc := d.desc()
+		lvs := append([]string{}, d.lvs...)
+		var m prometheus.Metric
+		var err error
+		tag, kind := "3", "hist"
+		names := []string{"NewConstHistogram", "MustNewConstHistogram", "NewConstHistogramWithCreatedTimestamp", "MustNewConstHistogramWithCreatedTimestamp"}
+		if isHist {
+			bm := map[float64]uint64{}
+			for i, k := range keys {
+				bm[k] = vals[i]
+			}
+			switch variant {
+			case 0:
+				m, err = prometheus.NewConstHistogram(desc, count, sum, bm, lvs...)
+			case 1:
+				m, err = must(func() prometheus.Metric { return prometheus.MustNewConstHistogram(desc, count, sum, bm, lvs...) })
+			case 2:
+				m, err = prometheus.NewConstHistogramWithCreatedTimestamp(desc, count, sum, bm, createdTS, lvs...)
+			case 3:
+				m, err = must(func() prometheus.Metric {
+					return prometheus.MustNewConstHistogramWithCreatedTimestamp(desc, count, sum, bm, createdTS, lvs...)
+				})
+			}
+		} else {
+			tag, kind = "4", "summary"
+			names = []string{"NewConstSummary", "MustNewConstSummary", "NewConstSummaryWithCreatedTimestamp", "MustNewConstSummaryWithCreatedTimestamp"}
+			qm := map[float64]float64{}
+			for i, k := range keys {
+				qm[k] = qvals[i]
+			}
+			switch variant {
+			case 0:
+				m, err = prometheus.NewConstSummary(desc, count, sum, qm, lvs...)
+			case 1:
+				m, err = must(func() prometheus.Metric { return prometheus.MustNewConstSummary(desc, count, sum, qm, lvs...) })
+			case 2:
+				m, err = prometheus.NewConstSummaryWithCreatedTimestamp(desc, count, sum, qm, createdTS, lvs...)
+			case 3:
+				m, err = must(func() prometheus.Metric {
+					return prometheus.MustNewConstSummaryWithCreatedTimestamp(desc, count, sum, qm, createdTS, lvs...)
+				})
+			}
+		}
+		tags := withTag(d.tags, kind, "variant:"+names[variant])
 		var impl string
 		if err != nil {
 			impl = emit.C(0, emit.I(errCode(err)))
-			tags = append(tags, "hist", errTag(errCode(err)))
+			tags = append(tags, errTag(errCode(err)))
 		} else {
 			var pb dto.Metric
 			if e := m.Write(&pb); e != nil {
 				panic(e)
 			}
-			ob := make([]string, len(pb.Histogram.Bucket))
-			for i, b := range pb.Histogram.Bucket {
-				ob[i] = emit.Pair(emit.F(b.GetUpperBound()), emit.U(b.GetCumulativeCount()))
+			if isHist {
+				h := pb.Histogram
+				ob := make([]string, len(h.Bucket))
+				for i, b := range h.Bucket {
+					ob[i] = emit.Pair(emit.F(b.GetUpperBound()), emit.U(b.GetCumulativeCount()))
+				}
+				ct := ctOK(variant, h.CreatedTimestamp != nil, h.GetCreatedTimestamp().AsTime())
+				impl = emit.C(1, lpS(pb.Label), emit.U(h.GetSampleCount()), emit.F(h.GetSampleSum()), emit.L(ob), emit.B(ct))
+				tags = append(tags, "result:ok", fmt.Sprintf("buckets:%d", len(keys)/4*4))
+			} else {
+				su := pb.Summary
+				oq := make([]string, len(su.Quantile))
+				for i, q := range su.Quantile {
+					oq[i] = emit.Pair(emit.F(q.GetQuantile()), emit.F(q.GetValue()))
+				}
+				ct := ctOK(variant, su.CreatedTimestamp != nil, su.GetCreatedTimestamp().AsTime())
+				impl = emit.C(1, lpS(pb.Label), emit.U(su.GetSampleCount()), emit.F(su.GetSampleSum()), emit.L(oq), emit.B(ct))
+				tags = append(tags, "result:ok", fmt.Sprintf("quantiles:%d", len(keys)/4*4))
 			}
-			impl = emit.C(1, lpS(pb.Label), emit.U(pb.Histogram.GetSampleCount()), emit.F(pb.Histogram.GetSampleSum()), emit.L(ob))
-			tags = append(tags, "hist", "result:ok", fmt.Sprintf("buckets:%d", len(keys)/4*4))
 		}
-		return emit.Tup("3", d.term(), emit.U(count), emit.F(sum), emit.L(it), impl), err == nil && len(keys) >= 2, tags
+		out = append(out, oneCase{emit.Tup(tag, emit.I(variant), d.term(), emit.U(count), emit.F(sum), emit.L(it), impl), err == nil && len(keys) >= 2, tags})
 	}
-	qm := map[float64]float64{}
-	it := make([]string, len(keys))
-	for i, k := range keys {
-		qm[k] = r.AnyFloat()
-		it[i] = emit.Pair(emit.F(k), emit.F(qm[k]))
-	}
-	m, err := prometheus.NewConstSummary(d.desc(), count, sum, qm, d.lvs...)
-	var impl string
-	if err != nil {
-		impl = emit.C(0, emit.I(errCode(err)))
-		tags = append(tags, "summary", errTag(errCode(err)))
-	} else {
-		var pb dto.Metric
-		if e := m.Write(&pb); e != nil {
-			panic(e)
-		}
-		oq := make([]string, len(pb.Summary.Quantile))
-		for i, q := range pb.Summary.Quantile {
-			oq[i] = emit.Pair(emit.F(q.GetQuantile()), emit.F(q.GetValue()))
-		}
-		impl = emit.C(1, lpS(pb.Label), emit.U(pb.Summary.GetSampleCount()), emit.F(pb.Summary.GetSampleSum()), emit.L(oq))
-		tags = append(tags, "summary", "result:ok", fmt.Sprintf("quantiles:%d", len(keys)/4*4))
-	}
-	return emit.Tup("4", d.term(), emit.U(count), emit.F(sum), emit.L(it), impl), err == nil && len(keys) >= 2, tags
+	return out
 }
 
 // ---------------------------------------------------------------- native
@@ -562,7 +672,6 @@ type ikv struct {
 	v int64
 }
 
-// sparse population map: returns entries in generation order (keys distinct) and tags
 func genSparse(r *emit.Rng, bad int) ([]ikv, []string) {
 	n := r.Intn(9)
 	if r.Chance(1, 4) {
@@ -665,7 +774,7 @@ func spansS(sp []*dto.BucketSpan) string {
 	return emit.L(it)
 }
 
-func nativeTerm(d *dspec, count uint64, sum float64, pos, neg []ikv, zero uint64, schema int32, zt float64) (string, bool, int) {
+func nativeTerm(variant int, d *dspec, count uint64, sum float64, pos, neg []ikv, zero uint64, schema int32, zt float64) (string, bool, int) {
 	pm, nm := map[int]int64{}, map[int]int64{}
 	for _, p := range pos {
 		pm[p.k] = p.v
@@ -673,7 +782,16 @@ func nativeTerm(d *dspec, count uint64, sum float64, pos, neg []ikv, zero uint64
 	for _, p := range neg {
 		nm[p.k] = p.v
 	}
-	m, err := prometheus.NewConstNativeHistogram(d.desc(), count, sum, pm, nm, zero, schema, zt, time.Unix(1700000000, 0), d.lvs...)
+	var m prometheus.Metric
+	var err error
+	lvs := append([]string{}, d.lvs...)
+	if variant == 0 {
+		m, err = prometheus.NewConstNativeHistogram(d.desc(), count, sum, pm, nm, zero, schema, zt, time.Unix(1700000000, 0), lvs...)
+	} else {
+		m, err = must(func() prometheus.Metric {
+			return prometheus.MustNewConstNativeHistogram(d.desc(), count, sum, pm, nm, zero, schema, zt, time.Unix(1700000000, 0), lvs...)
+		})
+	}
 	var impl string
 	code := -1
 	if err != nil {
@@ -688,11 +806,11 @@ func nativeTerm(d *dspec, count uint64, sum float64, pos, neg []ikv, zero uint64
 		impl = emit.C(1, lpS(pb.Label), emit.U(h.GetSampleCount()), emit.F(h.GetSampleSum()), emit.U(h.GetZeroCount()), emit.Z(int64(h.GetSchema())),
 			emit.F(h.GetZeroThreshold()), spansS(h.PositiveSpan), emit.ZL(h.PositiveDelta), spansS(h.NegativeSpan), emit.ZL(h.NegativeDelta))
 	}
-	t := emit.Tup("5", d.term(), emit.U(count), emit.F(sum), ikvS(pos), ikvS(neg), emit.U(zero), emit.Z(int64(schema)), emit.F(zt), impl)
+	t := emit.Tup("5", emit.I(variant), d.term(), emit.U(count), emit.F(sum), ikvS(pos), ikvS(neg), emit.U(zero), emit.Z(int64(schema)), emit.F(zt), impl)
 	return t, err == nil, code
 }
 
-func nativeCase(r *emit.Rng, bad int) (string, bool, []string) {
+func nativeCase(r *emit.Rng, bad int) []oneCase {
 	d := genDspec(r, bad/3)
 	pos, t1 := genSparse(r, bad)
 	neg, t2 := genSparse(r, bad)
@@ -740,13 +858,18 @@ func nativeCase(r *emit.Rng, bad int) (string, bool, []string) {
 		schema = []int32{-5, 9, -6, 10, 100, math.MinInt32, math.MaxInt32}[r.Intn(7)]
 	}
 	zt := []float64{0, math.Copysign(0, -1), 1e-128, 0.001, 1, math.NaN()}[r.Intn(6)]
-	term, ok, code := nativeTerm(d, count, sum, pos, neg, zero, schema, zt)
-	if ok {
-		tags = append(tags, "result:ok", fmt.Sprintf("pos:%d", len(pos)), fmt.Sprintf("neg:%d", len(neg)))
-	} else {
-		tags = append(tags, errTag(code))
+	var out []oneCase
+	for variant := 0; variant < 2; variant++ {
+		term, ok, code := nativeTerm(variant, d, count, sum, pos, neg, zero, schema, zt)
+		vt := withTag(tags, "variant:"+[]string{"NewConstNativeHistogram", "MustNewConstNativeHistogram"}[variant])
+		if ok {
+			vt = append(vt, "result:ok", fmt.Sprintf("pos:%d", len(pos)), fmt.Sprintf("neg:%d", len(neg)))
+		} else {
+			vt = append(vt, errTag(code))
+		}
+		out = append(out, oneCase{term, ok && len(pos)+len(neg) >= 2, vt})
 	}
-	return term, ok && len(pos)+len(neg) >= 2, tags
+	return out
 }
 
 // ---------------------------------------------------------------- timestamps
@@ -902,7 +1025,7 @@ func dtoExS(e *dto.Exemplar) string {
 	return emit.Pair(emit.F(e.GetValue()), lpSorted(e.Label))
 }
 
-func exCounterCase(r *emit.Rng, bad int) (string, bool, []string) {
+func exCounterCase(r *emit.Rng, bad int) []oneCase {
 	d := prometheus.NewDesc("c_total", "h", []string{"l"}, prometheus.Labels{"a": "b"})
 	vt := 1
 	if r.Intn(100) < 10+bad/3 {
@@ -920,40 +1043,57 @@ func exCounterCase(r *emit.Rng, bad int) (string, bool, []string) {
 		exs = append(exs, e)
 		tags = append(tags, t...)
 	}
-	inner := prometheus.MustNewConstMetric(d, prometheus.ValueType(vt), v, "x")
-	var before0, pb, after dto.Metric
-	inner.Write(&before0)
-	before := proto.Clone(&before0).(*dto.Metric) // const metrics hand out the same pointers on every Write
-	wm, err := prometheus.NewMetricWithExemplars(inner, toExemplars(exs, r)...)
-	if err == nil {
-		err = wm.Write(&pb)
-	}
-	inner.Write(&after)
-	unchanged := proto.Equal(before, &after) && proto.Equal(before, &before0)
-	var impl string
-	if err != nil {
-		impl = emit.C(0, emit.I(errCode(err)))
-		tags = append(tags, errTag(errCode(err)))
-		if !unchanged {
-			impl = emit.C(1, emit.F(0), emit.Pair(emit.F(0), "()"), emit.B(false)) // an error that altered the wrapped metric: spec violation
+	pexs := toExemplars(exs, r)
+	baseTags := tags
+	var out []oneCase
+	for variant := 0; variant < 2; variant++ {
+		tags := withTag(baseTags, "variant:"+[]string{"NewMetricWithExemplars", "MustNewMetricWithExemplars"}[variant])
+		inner := prometheus.MustNewConstMetric(d, prometheus.ValueType(vt), v, "x")
+		var before0, pb, after dto.Metric
+		inner.Write(&before0)
+		before := proto.Clone(&before0).(*dto.Metric) // const metrics hand out the same pointers on every Write
+		var wm prometheus.Metric
+		var err error
+		if variant == 0 {
+			wm, err = prometheus.NewMetricWithExemplars(inner, pexs...)
+		} else {
+			wm, err = must(func() prometheus.Metric { return prometheus.MustNewMetricWithExemplars(inner, pexs...) })
 		}
-	} else {
-		impl = emit.C(1, emit.F(pb.Counter.GetValue()), dtoExS(pb.Counter.Exemplar), emit.B(unchanged && lpS(pb.Label) == lpS(before.Label)))
-		tags = append(tags, "result:ok", fmt.Sprintf("exemplars:%d", n))
+		if err == nil {
+			err = wm.Write(&pb)
+		}
+		inner.Write(&after)
+		unchanged := proto.Equal(before, &after) && proto.Equal(before, &before0)
+		var impl string
+		if err != nil {
+			impl = emit.C(0, emit.I(errCode(err)))
+			tags = append(tags, errTag(errCode(err)))
+			if !unchanged {
+				impl = emit.C(1, emit.F(0), emit.Pair(emit.F(0), "()"), emit.B(false)) // an error that altered the wrapped metric: spec violation
+			}
+		} else {
+			impl = emit.C(1, emit.F(pb.Counter.GetValue()), dtoExS(pb.Counter.Exemplar), emit.B(unchanged && lpS(pb.Label) == lpS(before.Label)))
+			tags = append(tags, "result:ok", fmt.Sprintf("exemplars:%d", n))
+		}
+		out = append(out, oneCase{emit.Tup("7", emit.I(variant), emit.I(vt), emit.F(v), exInS(exs), impl), err == nil && n >= 1, tags})
 	}
-	return emit.Tup("7", emit.I(vt), emit.F(v), exInS(exs), impl), err == nil && n >= 1, tags
+	return out
 }
 
-func exHistCase(r *emit.Rng, bad int) (string, bool, []string) {
+func exHistCase(r *emit.Rng, bad int) []oneCase {
 	d := prometheus.NewDesc("h", "h", nil, nil)
 	native := r.Chance(1, 5)
 	count := uint64(r.Intn(1000))
 	var keys []float64
 	bm := map[float64]uint64{}
-	var inner prometheus.Metric
 	var tags []string
+	mkInner := func() prometheus.Metric {
+		if native {
+			return prometheus.MustNewConstNativeHistogram(d, 3, 2.5, map[int]int64{0: 1, 2: 2}, nil, 0, 2, 0.001, time.Unix(1700000000, 0))
+		}
+		return prometheus.MustNewConstHistogram(d, count, 1.5, bm)
+	}
 	if native {
-		inner = prometheus.MustNewConstNativeHistogram(d, 3, 2.5, map[int]int64{0: 1, 2: 2}, nil, 0, 2, 0.001, time.Unix(1700000000, 0))
 		count = 3
 		tags = append(tags, "wrapped:native")
 	} else {
@@ -961,7 +1101,6 @@ func exHistCase(r *emit.Rng, bad int) (string, bool, []string) {
 		for _, k := range keys {
 			bm[k] = uint64(r.Intn(1000))
 		}
-		inner = prometheus.MustNewConstHistogram(d, count, 1.5, bm)
 		tags = append(tags, "wrapped:classic", fmt.Sprintf("buckets:%d", len(keys)))
 	}
 	sorted := append([]float64{}, keys...)
@@ -1003,56 +1142,73 @@ func exHistCase(r *emit.Rng, bad int) (string, bool, []string) {
 	if nan {
 		tags = append(tags, "exemplar-value:nan")
 	}
-	var before, pb, after dto.Metric
-	inner.Write(&before)
-	beforeC := proto.Clone(&before).(*dto.Metric)
-	wm, err := prometheus.NewMetricWithExemplars(inner, toExemplars(exs, r)...)
-	if err == nil {
-		err = wm.Write(&pb)
-	}
-	inner.Write(&after)
-	unchanged := proto.Equal(beforeC, &after) && proto.Equal(beforeC, &before)
-	var impl string
-	if err != nil {
-		impl = emit.C(0, emit.I(errCode(err)))
-		tags = append(tags, errTag(errCode(err)))
-		if !unchanged {
-			impl = emit.C(1, "()", emit.B(false))
-		}
-	} else {
-		h := pb.Histogram
-		// everything but the classic buckets must be what the wrapped metric exposes
-		hc := proto.Clone(h).(*dto.Histogram)
-		hc.Bucket = nil
-		bc := proto.Clone(beforeC.Histogram).(*dto.Histogram)
-		bc.Bucket = nil
-		unchanged = unchanged && proto.Equal(hc, bc) && lpS(pb.Label) == lpS(beforeC.Label)
-		ob := make([]string, len(h.Bucket))
-		withEx, inf := 0, false
-		for i, b := range h.Bucket {
-			ex := emit.None()
-			if b.Exemplar != nil {
-				ex = emit.Some(dtoExS(b.Exemplar))
-				withEx++
-			}
-			if math.IsInf(b.GetUpperBound(), 1) && i >= len(keys) {
-				inf = true
-			}
-			ob[i] = emit.Tup(emit.F(b.GetUpperBound()), emit.U(b.GetCumulativeCount()), ex)
-		}
-		impl = emit.C(1, emit.L(ob), emit.B(unchanged))
-		tags = append(tags, "result:ok", fmt.Sprintf("exemplars:%d", n), fmt.Sprintf("buckets-with-exemplar:%d", withEx), fmt.Sprintf("inf-bucket-added:%v", inf))
-	}
+	pexs := toExemplars(exs, r)
 	it := make([]string, len(keys))
 	for i, k := range keys {
 		it[i] = emit.Pair(emit.F(k), emit.U(bm[k]))
 	}
-	return emit.Tup("8", emit.U(count), emit.L(it), exInS(exs), impl), err == nil && n >= 2, tags
+	baseTags := tags
+	var out []oneCase
+	for variant := 0; variant < 2; variant++ {
+		tags := withTag(baseTags, "variant:"+[]string{"NewMetricWithExemplars", "MustNewMetricWithExemplars"}[variant])
+		inner := mkInner()
+		var before, pb, after dto.Metric
+		inner.Write(&before)
+		beforeC := proto.Clone(&before).(*dto.Metric)
+		var wm prometheus.Metric
+		var err error
+		if variant == 0 {
+			wm, err = prometheus.NewMetricWithExemplars(inner, pexs...)
+		} else {
+			wm, err = must(func() prometheus.Metric { return prometheus.MustNewMetricWithExemplars(inner, pexs...) })
+		}
+		if err == nil {
+			err = wm.Write(&pb)
+		}
+		inner.Write(&after)
+		unchanged := proto.Equal(beforeC, &after) && proto.Equal(beforeC, &before)
+		var impl string
+		if err != nil {
+			impl = emit.C(0, emit.I(errCode(err)))
+			tags = append(tags, errTag(errCode(err)))
+			if !unchanged {
+				impl = emit.C(1, "()", emit.B(false))
+			}
+		} else {
+			h := pb.Histogram
+			// everything but the classic buckets must be what the wrapped metric exposes
+			hc := proto.Clone(h).(*dto.Histogram)
+			hc.Bucket = nil
+			bc := proto.Clone(beforeC.Histogram).(*dto.Histogram)
+			bc.Bucket = nil
+			unchanged = unchanged && proto.Equal(hc, bc) && lpS(pb.Label) == lpS(beforeC.Label)
+			ob := make([]string, len(h.Bucket))
+			withEx, inf := 0, false
+			for i, b := range h.Bucket {
+				ex := emit.None()
+				if b.Exemplar != nil {
+					ex = emit.Some(dtoExS(b.Exemplar))
+					withEx++
+				}
+				if math.IsInf(b.GetUpperBound(), 1) && i >= len(keys) {
+					inf = true
+				}
+				ob[i] = emit.Tup(emit.F(b.GetUpperBound()), emit.U(b.GetCumulativeCount()), ex)
+			}
+			impl = emit.C(1, emit.L(ob), emit.B(unchanged))
+			tags = append(tags, "result:ok", fmt.Sprintf("exemplars:%d", n), fmt.Sprintf("buckets-with-exemplar:%d", withEx), fmt.Sprintf("inf-bucket-added:%v", inf))
+		}
+		out = append(out, oneCase{emit.Tup("8", emit.I(variant), emit.U(count), emit.L(it), exInS(exs), impl), err == nil && n >= 2, tags})
+	}
+	return out
 }
 
 // ---------------------------------------------------------------- known findings (only when listed in known_findings.txt)
 func knownListed(key string) bool {
 	root := os.Getenv("VERIF_ROOT")
+	if root == "" {
+		root = os.Getenv("VERIF_HOME")
+	}
 	if root == "" {
 		root = "/verif"
 	}
@@ -1068,11 +1224,12 @@ func knownListed(key string) bool {
 	return false
 }
 
-func runStream(c *cli.Ctx, r *emit.Rng, name string, n int, bad int, gen func(*emit.Rng, int) (string, bool, []string)) error {
+func runStream(c *cli.Ctx, r *emit.Rng, name string, n int, bad int, gen func(*emit.Rng, int) []oneCase) error {
 	w := emit.NewWriter(c.Out, "C14", name)
 	for i := 0; i < n*c.Scale; i++ {
-		t, nt, tags := gen(r, bad)
-		w.Add(t, nt, tags...)
+		for _, oc := range gen(r, bad) {
+			w.Add(oc.term, oc.nt, oc.tags...)
+		}
 	}
 	return w.Flush()
 }
@@ -1089,7 +1246,7 @@ func runC14(c *cli.Ctx) error {
 		name string
 		n    int
 		bad  int
-		gen  func(*emit.Rng, int) (string, bool, []string)
+		gen  func(*emit.Rng, int) []oneCase
 	}
 	for _, s := range []st{
 		{"const", 600, 12, constCase},
@@ -1113,7 +1270,7 @@ func runC14(c *cli.Ctx) error {
 	if knownListed("count-wrap") {
 		w := emit.NewWriter(c.Out, "C14", "known-count-wrap")
 		d := &dspec{fq: "h", help: "h", consts: map[string]string{}}
-		t, _, _ := nativeTerm(d, math.MaxUint64-2, 1.5, []ikv{{0, -3}}, nil, 0, 2, 0.001)
+		t, _, _ := nativeTerm(0, d, math.MaxUint64-2, 1.5, []ikv{{0, -3}}, nil, 0, 2, 0.001)
 		w.Add(t, true, "count-wrap")
 		if err := w.Flush(); err != nil {
 			return err
